@@ -49,7 +49,15 @@ def main():
     shutil.rmtree(wt, ignore_errors=True)
     rc, out = sh(f"git -C /repo worktree add -q --detach {wt} HEAD")
     assert rc == 0, out
-    meta = {"seed_id": a.seed_id, "breaks": props, "what": a.what, "needs_to_manifest": a.needs,
+    old_meta = {}
+    try:
+        old_meta = json.load(open(os.path.join(VERIF, "seeded", a.seed_id, "meta.json")))
+    except Exception:
+        pass
+    meta = {"seed_id": a.seed_id, "breaks": props, "what": a.what or old_meta.get("what", ""),
+            "needs_to_manifest": a.needs or old_meta.get("needs_to_manifest", ""),
+            "earlier_runs": old_meta.get("earlier_runs", []) + ([{"caught_by": old_meta.get("caught_by"),
+                                                                 "base_commit": old_meta.get("base_commit")}] if old_meta else []),
             "base_commit": sh("git -C /repo rev-parse HEAD")[1].strip(), "ran": []}
     try:
         # reuse /repo's in-place build outputs (git-ignored) so that only touched modules are rebuilt
@@ -102,8 +110,11 @@ def main():
         meta["caught_by"] = [p for p, c in meta["checks"].items() if c["exit"] == 1 and c["violation_lines"]]
         d = os.path.join(VERIF, "seeded", a.seed_id)
         os.makedirs(d, exist_ok=True)
-        shutil.copy(a.patch, os.path.join(d, "patch.diff"))
-        shutil.copy(a.demo, os.path.join(d, demo_name))
+        for src, dst in ((a.patch, os.path.join(d, "patch.diff")), (a.demo, os.path.join(d, demo_name))):
+            if os.path.abspath(src) != os.path.abspath(dst):
+                shutil.copy(src, dst)
+        if a.skip_tests and "tests_passed" in old_meta:
+            meta["tests_passed"] = old_meta["tests_passed"]
         json.dump(meta, open(os.path.join(d, "meta.json"), "w"), indent=1)
         print(json.dumps({k: meta[k] for k in ("seed_id", "demo_passes_without", "demo_fails_with", "caught_by")
                           if k in meta} | {"tests_passed": meta.get("tests_passed"),
